@@ -168,25 +168,6 @@ def d5_dtype(ctx, RA, step, roles, appenders):
     ctx.decide(ok, 'R-FLOW', 'D5', f, None, 'dtype-from-first', 'the values dtype is fixed by the (converted) first item', detail='dtype not bound to the first item')
     arr_app = [a for a in appenders if a.cls is not None and a.cls.name == 'Array']
     d3_checker(ctx, ctx.repo.cls('Array'), arr_app)
-    # the checker converts unconditionally (no shortcut that returns the input as is)
-    ap = arr_app[0]
-    chk = None
-    for n in own_nodes(ap.node):
-        if isinstance(n, ast.Assign) and isinstance(n.value, ast.Call):
-            tg = [t for k, t in ctx.R.resolve_call(n.value, ap) if k == 'repo']
-            if tg:
-                chk = tg[0]
-    if chk is not None:
-        param = [p for p in chk.params if p != 'self'][0]
-        cfg = cfg_of(chk)
-        convs = [n for n in own_nodes(chk.node) if isinstance(n, ast.Assign) and isinstance(n.value, ast.Call)
-                 and dotted(n.value.func) in ('np.asarray', 'np.array') and norm(n.targets[0]) == param]
-        nodes = {cfg.node_for(n) for n in convs}
-        ok = bool(convs) and not cfg.can_reach(cfg.entry, cfg.exit, avoid=nodes, skip_labels=('exc',))
-        ctx.decide(ok, 'R-DOM', 'D5', chk, convs[0] if convs else None, 'always-converts',
-                   f'{chk.qualname}: every normal path converts the input with the array\'s dtype (byte order included)',
-                   detail='a path returns the input without conversion (e.g. a shortcut on dtype.name, which ignores '
-                          'byte order): raw native-order bytes are written into a byte-swapped array')
 
 
 def truncate_rules(ctx):
